@@ -158,6 +158,13 @@ def same_term(ob, found, expected, what, where=None):
     """R-TERM comparison with diagnosis."""
     if found == expected:
         return ob.require(True, what, where)
+    if found is not None and expected is not None and (T.phi_conditions(found) or T.phi_conditions(expected)):
+        hf, he = T.hoist(found), T.hoist(expected)
+        if hf == he:
+            return ob.require(True, what, where)
+        found, expected = hf, he
+    if found is None:
+        return ob.require(False, what + ': value missing', where, expected=T.show(expected, maxdepth=5), found='None')
     ops = T.opaques(found)
     if ops:
         ob.undecided('%s: value not computable by the evaluator (%s)' % (
